@@ -13,6 +13,23 @@ fn main() {
     if !a.has("loud") {
         quiet_panics();
     }
+    // watchdog: a library call that has been pending for too long is a hang (exit 3 with the pending input on disk)
+    {
+        let out = a.get("out", "work");
+        let limit = std::env::var("VERIF_HANG_SECS").ok().and_then(|x| x.parse::<u64>().ok()).unwrap_or(240);
+        std::thread::spawn(move || loop {
+            std::thread::sleep(std::time::Duration::from_secs(3));
+            let p = shpverif::trace::PENDING.lock().unwrap().clone();
+            if let Some((since, what)) = p {
+                if since.elapsed().as_secs() >= limit {
+                    let _ = std::fs::create_dir_all(&out);
+                    let _ = std::fs::write(std::path::Path::new(&out).join("hang.json"),
+                                           format!("{{\"what\": \"hang: a library call did not return within {} s\", \"pending\": {}}}", limit, what));
+                    std::process::exit(3);
+                }
+            }
+        });
+    }
     match argv[1].as_str() {
         "codec" => shpverif::cmd_codec::run(&a),
         "writer" => shpverif::cmd_writer::run(&a),
